@@ -30,7 +30,7 @@ theorem runBody_keeps (env : Env) (f : Node → St → Res × St) (hf : CalleeKe
   | reraise e => intro s; exact Keeps.refl s
   | read a x k ih =>
     intro s; simp only [runBody]
-    exact (Keeps.of_sameCache (sameCache_noteRead s a x)).trans (ih _ _)
+    exact (Keeps.of_sameCache (sameCache_noteRead s _ x)).trans (ih _ _)
   | call n k ih =>
     intro s; simp only [runBody]
     exact (hf n s).trans (ih _ _)
